@@ -146,6 +146,16 @@ def functions(block):
     return out
 
 
+SPEC_PLACEHOLDER = {
+    "signed_div": "EvmSpec.spec_sdiv a b", "signed_rem": "EvmSpec.spec_smod a b", "exp": "EvmSpec.xspec_exp a b",
+    "lt": "EvmSpec.spec_lt a b", "gt": "EvmSpec.spec_gt a b", "signed_lt": "EvmSpec.spec_slt a b", "signed_gt": "EvmSpec.spec_sgt a b",
+    "is_zero": "EvmSpec.spec_iszero a", "sar": "EvmSpec.xspec_sar b a", "add": "EvmSpec.spec_add a b", "mul": "EvmSpec.spec_mul a b",
+    "sub": "EvmSpec.spec_sub a b", "div": "EvmSpec.spec_div a b", "rem": "EvmSpec.spec_mod a b", "bitand": "EvmSpec.spec_and a b",
+    "bitor": "EvmSpec.spec_or a b", "bitxor": "EvmSpec.spec_xor a b", "not": "EvmSpec.spec_not a", "shl": "EvmSpec.xspec_shl b a",
+    "shr": "EvmSpec.xspec_shr b a", "eq": "EvmSpec.spec_eq a b",
+}
+
+
 def t4_knownword(repo, out, consts):
     problems = []
     src = read(repo, "src/vm/value/known.rs")
@@ -206,7 +216,7 @@ def t4_knownword(repo, out, consts):
     if not fb_ok:
         problems.append("impl From<bool> for KnownWord not recognised")
 
-    s = HEADER + "From Coq Require Import String.\nFrom SLX Require Import Base Word256.\nOpen Scope N_scope.\n\n"
+    s = HEADER + "From Coq Require Import String.\nFrom SLX Require Import Base Word256 EvmSpec.\nOpen Scope N_scope.\n\n"
     s += "(* the KnownWord operations a constant_folder arm can apply *)\n"
     s += "Inductive kwop :=\n" + "\n".join("| K_%s" % o for o in OPS) + ".\n\n"
     s += "Definition kwop_idx (o : kwop) : N :=\n  match o with\n" + "\n".join(
@@ -232,8 +242,12 @@ def t4_knownword(repo, out, consts):
         if ent is None:
             if body is not None:
                 problems.append("body of KnownWord::%s not recognised: %s" % (o, body))
-            s += "(* %s: UNRECOGNISED BODY -- placeholder, the translation obligation is broken *)\n" % o
-            s += "Definition sel_%s %s : N := W.\nDefinition sel_%s_panics %s : bool := true.\n" % (o, params, o, params)
+            # the translation obligation is broken; so that the SEARCH still runs on a sensible model, the placeholder is the
+            # specification's operator (a correct rewrite then agrees with the model, an incorrect one shows up as a
+            # model/implementation difference and in the property predicates)
+            s += "(* %s: UNRECOGNISED BODY -- placeholder = the specification's operator; the translation obligation is broken *)\n" % o
+            s += "Definition sel_%s %s : N := %s.\nDefinition sel_%s_panics %s : bool := false.\n" % (
+                o, params, SPEC_PLACEHOLDER.get(o, "W"), o, params)
             s += 'Definition sel_%s_variant : string := "unrecognised"%%string.\n\n' % o
             info[o] = "unrecognised"
             continue
